@@ -124,6 +124,49 @@ def _layout_shard(shard, n, tier, seed, budget_s):
                             if got != want:
                                 rep["violations"].append({"key": "nested-layout:%d:%d:%s:%d:%s:%d" % (nb, na, ell, L, kind, outer), "summary": "nested unpacking `%s` called as `%s`: expected %s, got %s" % (fn, call, want, got),
                                                           "case": {"src": src, "expected": want, "real": got}})
+    # several packed arguments in one call: every segment is a plain argument or a packed list/tuple of 0..3 values; the callee must
+    # see the concatenation (a running offset that is lost after a packed argument of size != 1 shifts or overwrites later values)
+    import itertools
+    SEG = ("plain", "p0", "p1", "p2", "p3")
+    for nseg in (2, 3, 4):
+        for segs in itertools.product(SEG, repeat=nseg):
+            if sum(1 for g in segs if g != "plain") < 2:
+                continue
+            for fnkind in (0, 1, 2):
+                idx += 1
+                if idx % n != shard:
+                    continue
+                flat = []; parts = []; nxt = 1
+                for si, g in enumerate(segs):
+                    if g == "plain":
+                        parts.append(str(nxt)); flat.append(nxt); nxt += 1
+                    else:
+                        m = int(g[1]); vals = list(range(nxt, nxt + m)); nxt += m; flat += vals
+                        parts.append(lit("list" if (si + fnkind) % 2 == 0 else "tuple", vals) + "...")
+                if fnkind == 0:
+                    fn = "f = |rest...| (0, rest)"; r_, o_ = 0, 0
+                elif fnkind == 1:
+                    fn = "f = |a0, b0 = 100, rest...| (a0, b0, rest)"; r_, o_ = 1, 1
+                else:
+                    fn = "f = |a0, a1, b0 = 100, b1 = 101| (a0, a1, b0, b1)"; r_, o_ = 2, 2
+                k = len(flat)
+                if k < r_ or (fnkind == 2 and k > r_ + o_):
+                    want = "#E"; rep["errors_expected"] += 1
+                elif fnkind == 0:
+                    want = "(0, (" + ", ".join(map(str, flat)) + "))"
+                elif fnkind == 1:
+                    want = "(%d, %s, (%s))" % (flat[0], flat[1] if k > 1 else 100, ", ".join(map(str, flat[2:])))
+                else:
+                    want = "(%d, %d, %s, %s)" % (flat[0], flat[1], flat[2] if k > 2 else 100, flat[3] if k > 3 else 101)
+                call = "f(%s)" % ", ".join(parts)
+                src = "%s\nx = try\n  %s\ncatch _\n  '#E'\nprint(x)\n" % (fn, call)
+                rr = w.exec(src, timeout=20, limit_ms=3000)
+                rep["evaluations"] += 1; rep["layouts"] += 1; rep["distinct"] += 1
+                c01._passengers(rep, rr, src)
+                got = rr.get("stdout", "").rstrip("\n") if rr.get("outcome") == "ok" else "<%s: %s>" % (rr.get("outcome"), (rr.get("error") or "")[:80])
+                if got != want:
+                    rep["violations"].append({"key": "multi-packed:%s:%d" % ("-".join(segs), fnkind), "summary": "several packed arguments `%s` called as `%s`: expected %s, got %s" % (fn, call, want, got),
+                                              "case": {"src": src, "expected": want, "real": got}})
     w.close()
     return rep
 
